@@ -14,6 +14,7 @@
 //   Q sid r          select the r-th candidate (mod their number, among the first 1500) that does
 //                    NOT cover the whole input - a partial selection
 //   X sid r          delete candidate number r mod min(count, 12)
+//   Y sid            delete the first candidate (among the first 100) whose text is the text this session committed last
 //   F sid            press space until nothing is being composed (at most 8 times)
 //   C sid            commit_composition
 //   R sid            clear_composition
@@ -103,11 +104,13 @@ static std::vector<std::string> candidates(RimeSessionId s, size_t limit) {
 }
 
 // what the session shows after a command: committed text (if any) and the input left
+static std::map<RimeSessionId, std::string> last_commit;   // text of the latest commit seen per session (command Y)
 static void observe(const char* tag, RimeSessionId s) {
   std::string out = tag;
   RIME_STRUCT(RimeCommit, commit);
   if (api->get_commit(s, &commit)) {
     out += " commit=" + hex(commit.text ? commit.text : "");
+    last_commit[s] = commit.text ? commit.text : "";
     api->free_commit(&commit);
   } else {
     out += " commit=none";
@@ -245,6 +248,18 @@ static int do_run(int argc, char** argv) {
       else
         api->delete_candidate(s, i);
       observe(cmd == "P" ? "P+" : "X+", s);
+    } else if (cmd == "Y") {
+      auto cands = candidates(s, 100);
+      size_t i = 0;
+      while (i < cands.size() && (last_commit[s].empty() || cands[i] != last_commit[s]))
+        ++i;
+      if (i == cands.size()) {
+        printf("Y notfound\n");
+        continue;
+      }
+      printf("Y index=%zu text=%s\n", i, hex(cands[i]).c_str());
+      api->delete_candidate(s, i);
+      observe("Y+", s);
     } else if (cmd == "Q") {
       unsigned long r = 0;
       is >> r;
